@@ -30,7 +30,10 @@ PANICKY_STD = ("std::vec::Vec::remove", "std::vec::Vec::swap_remove", "std::vec:
                "std::ops::Index::index", "std::ops::IndexMut::index_mut", "core::slice::<impl [T]>::swap",
                "std::collections::VecDeque::swap", "smallvec::SmallVec::remove", "smallvec::SmallVec::insert",
                "smallvec::SmallVec::swap_remove", "smallvec::SmallVec::drain", "core::char::methods::<impl char>::to_digit",
-               "core::char::methods::<impl char>::from_digit")
+               "core::char::methods::<impl char>::from_digit") + tuple(
+    "core::num::<impl %s>::%s" % (ty, m_) for ty in ("i8", "i16", "i32", "i64", "isize", "u8", "u16", "u32", "u64", "usize")
+    for m_ in ("wrapping_div", "wrapping_rem", "div_euclid", "rem_euclid", "wrapping_div_euclid", "wrapping_rem_euclid", "overflowing_div",
+               "overflowing_rem", "saturating_div", "div_floor", "div_ceil", "next_multiple_of", "ilog", "ilog2", "ilog10", "isqrt"))
 BORROWS = ("cell::RefCell::borrow", "cell::RefCell::borrow_mut", "std::cell::RefCell::borrow", "std::cell::RefCell::borrow_mut")
 
 
@@ -387,8 +390,8 @@ class Discharger:
     # -------------------------------------------------------------- dispatcher
     def discharge(self, f, b, t, kind, what):
         for rule in (self.d_arity, self.d_arity_user, self.d_dominating_test, self.d_checked_key, self.d_nonempty, self.d_container_variant, self.d_variant_runs,
-                     self.d_table, self.d_counter, self.d_total_cast, self.d_const_index, self.d_borrow, self.d_known_arith,
-                     self.d_const_input, self.d_div_guarded):
+                     self.d_table, self.d_counter, self.d_total_cast, self.d_const_index, self.d_front_insert, self.d_borrow, self.d_known_arith,
+                     self.d_const_input, self.d_div_guarded, self.d_zero_checked):
             r = rule(f, b, t, kind, what)
             if r is not None:
                 return r
@@ -838,6 +841,15 @@ class Discharger:
                 return True
         return False
 
+    def d_front_insert(self, f, b, t, kind, what):
+        """`v.insert(0, x)`: the index of an insertion may equal the length, so the constant 0 is in range for every vector"""
+        if kind != "std-panicky" or what != "insert" or len(t.get("args") or []) < 3:
+            return None
+        i = mir.trace_const(f, t["args"][1])
+        if i and i.get("val") == 0:
+            return (True, "D-front-insert", "insertion at the constant index 0 (an index <= len for every vector)")
+        return None
+
     def d_const_index(self, f, b, t, kind, what):
         if kind != "assert" or not what.startswith("BoundsCheck"):
             return None
@@ -944,6 +956,41 @@ class Discharger:
                 self._ratio_zero = all(r and r[-1][0] == "error" and not any(x[0] == "Rational" for x in r) for r in rows)
             guard = self._ratio_zero
             return (guard, "D-div-guarded", "denominator non-zero by construction (reader + C09-zero)" if guard else "the reader no longer rejects n/0")
+        return None
+
+    # -------------------------------------------------------------- D-zero-checked
+    INT_DIV_METHODS = ("wrapping_div", "wrapping_rem", "div_euclid", "rem_euclid", "wrapping_div_euclid", "wrapping_rem_euclid",
+                       "overflowing_div", "overflowing_rem", "saturating_div")
+
+    def d_zero_checked(self, f, b, t, kind, what):
+        """a division / remainder (the compiler's zero-divisor assertion, or an integer method that panics on a zero divisor) whose
+        divisor went through `check_division_by_zero(d)?` on every path: the Continue edge of that `?` dominates the site"""
+        if kind == "assert" and (what.startswith("DivisionByZero") or what.startswith("RemainderByZero")):
+            div = None
+            cl = mir.op_place(t["cond"])
+            for s_ in reversed(f.blocks[b]["stmts"]):
+                if s_["k"] == "assign" and cl and s_["place"]["local"] == cl["local"] and s_["rv"]["k"] == "binop" and s_["rv"]["op"] == "Eq":
+                    div = s_["rv"]["l"]
+                    break
+        elif kind == "std-panicky" and what in self.INT_DIV_METHODS and len(t.get("args") or []) >= 2:
+            div = t["args"][1]
+        else:
+            return None
+        if div is None:
+            return None
+        p = Prov(f)
+        dom = f.dominators()
+        acc = mir.trace_access(f, div)
+        for cb, ct in f.calls():
+            if not callee_matches(ct, "values::check_division_by_zero"):
+                continue
+            if mir.trace_access(f, ct["args"][0]) != acc:
+                continue
+            for bb, tt in f.calls():
+                if callee_matches(tt, "std::ops::Try::branch") and ("call", cb, callee(ct)) in p.op_roots(tt["args"][0]):
+                    sw = mir.result_switch_after(f, bb)
+                    if sw and sw[1].get(0) is not None and sw[1][0] in dom[b]:
+                        return (True, "D-zero-checked", "the divisor passed check_division_by_zero(..)? on every path to this site")
         return None
 
     # -------------------------------------------------------------- D-const-input
